@@ -21,6 +21,7 @@ func c18(c *Ctx) {
 	c18bases(c, deschedLoadPkg)
 	c18names(c, deschedLoadPkg)
 	c18mark(c)
+	c18lowReset(c)
 	r.Decides("in evictPods an eviction is dominated by the continue-condition evaluated in the same iteration being true and by the pod filter passing; between a successful eviction and the next evaluation of the condition the node usage and the shared headroom are decremented (unless the pod has no metric)")
 	r.Decides("the balance call is unreachable when no node is overloaded, no overloaded node is a confirmed anomaly, no node is underused, too few nodes are underused, or all nodes are underused")
 	r.Decides("the source nodes handed to the eviction are the anomaly-filtered overloaded classes; the continue-condition returns true only for a node that is still over its high threshold and while every thresholded resource still has positive headroom")
